@@ -263,10 +263,58 @@ def _bare(t):
     return False
 
 
+INT_W = {'u8': 8, 'u16': 16, 'u32': 32, 'u64': 64, 'usize': 64, 'u128': 128, 'i8': 8, 'i16': 16, 'i32': 32, 'i64': 64, 'isize': 64, 'i128': 128}
+
+MODULE_PROPS = [('qvector::rs_qvector', ['C05', 'C01', 'C04']), ('bitvector::rs_narrow', ['C06']), ('bitvector::rs_wide', ['C06', 'C03']),
+                ('darray', ['C07']), ('bitvector', ['C08']), ('quadwt::huffqwt', ['C02']), ('quadwt', ['C01']), ('binwt', ['C03']),
+                ('qvector', ['C13', 'C05']), ('utils', ['C17'])]
+
+
+def props_of_module(path, default=('C04',)):
+    return next((list(p) for pre, p in MODULE_PROPS if path.startswith(pre)), list(default))
+
+
+def _w5_narrow_then_shift(FA, out):
+    """w5 (all functions): a stored word narrowed by `as` and THEN shifted right by a computed amount loses the bits it was
+    supposed to bring down (`(code as u8 >> shift) & 3` instead of `((code >> shift) & 3) as u8`)."""
+    n = 0
+    for f in FA.lib_fns():
+        F = FA.fn(f)
+        F.dom()
+        for bi, b in enumerate(F.blocks):
+            if bi not in F.reach:
+                continue
+            for s in b['s']:
+                rv = s['rv']
+                if rv['k'] != 'bin' or rv['op'].replace('Unchecked', '') != 'Shr' or 'p' not in rv['a'] or rv['a']['p']['proj']:
+                    continue
+                n += 1
+                ds = [d for d in F.defs.get(rv['a']['p']['l'], []) if d[0] in F.reach]
+                if len(ds) != 1 or ds[0][1] != 'assign' or ds[0][2]['k'] != 'cast':
+                    continue
+                c = ds[0][2]
+                wt, wf = INT_W.get(c['to'], 0), INT_W.get(c['from'], 0)
+                if not wt or not wf or wt >= wf:
+                    continue
+                amt = strip_casts(norm(F.operand_term(rv['b'])))
+                if amt[0] == 'const' and amt[1] < wt:
+                    src = norm(F.operand_term(c['a']))
+                    if not (src[0] == 'bin' and src[1] in ('Shr', 'BitAnd')):
+                        pass
+                    continue
+                pf = FA.closure_parent(f)
+                out.append(Inst('R-W', 'R-W|w5|%s' % fn_key(pf), 'violation', s['line'],
+                                '`%s` is narrowed from %s to %s and then shifted right by `%s`: every bit above bit %d is gone before the shift brings it down (debug: shift overflow; release: wrong digit)' % (
+                                    show(norm(F.operand_term(c['a'])))[:60], c['from'], c['to'], show(amt)[:40], wt - 1),
+                                props_of_module(fn_key(pf)) + ['C10'], sample={'from': c['from'], 'to': c['to'], 'amount': show(amt)}))
+    return n
+
+
 def rule_W(FA):
     out = []
     seen = set()
     n_scanned = 0
+    n_shr = _w5_narrow_then_shift(FA, out)
     for f in FA.lib_fns():
         base = f.get('_base', '')
         tps = type_params(f)
